@@ -153,6 +153,9 @@ let run_balance (inp : string) : string =
 
 let () =
   register "core.bal" (fun inp _obs -> (run_balance inp, "ok"));
+  register "core.print" (fun inp _obs ->
+    let (_, j) = split_input inp in
+    (render_result (K.print_cmd true (decode_journal j)), "ok"));
   register "core.check" (fun inp _obs ->
     let (_, j) = split_input inp in
     match K.check_cmd true (decode_journal j) with
